@@ -1225,8 +1225,18 @@ fn drive_sym(c: &mut Case, sym: &str, user: bool) {
         Some(rest) => (rest, true),
         None => (sym, false),
     };
+    // `o<sym>`: enter_operate() again before the polls; `O<sym>`: between the request and its reply
+    // (seed C14-m6: a repeated state change must not disturb the cycle)
+    let (sym, op_before, op_between) = match (sym.strip_prefix('o'), sym.strip_prefix('O')) {
+        (Some(rest), _) => (rest, true, false),
+        (_, Some(rest)) => (rest, false, true),
+        _ => (sym, false, false),
+    };
     if user {
         c.op("dp.diagreq 0".to_string());
+    }
+    if op_before {
+        c.op("dp.operate".to_string());
     }
     for _ in 0..4 {
         c.now += 700;
@@ -1242,6 +1252,9 @@ fn drive_sym(c: &mut Case, sym: &str, user: bool) {
                 };
                 c.op(format!("dp.resetaddr 0 {new}"));
                 c.cfg.ps[0].addr = new;
+            }
+            if op_between {
+                c.op("dp.operate".to_string());
             }
             c.now += 200;
             match p.and_then(|p| sym_reply(sym, c.cfg.own, &p)) {
@@ -1430,6 +1443,23 @@ pub fn gen(ops: &mut Vec<String>, seed: u64, thorough: bool) {
         }
         let prefix: &[&str] = if code % 2 == 0 { &["Dok", "S", "S", "Dok", "Xok"] } else { &["Dok", "S", "S"] };
         exhaustive_case(ops, &mut ex, prefix, &seq, code % 4 == 1, 1, 1);
+    }
+    // enter_operate() repeated at every point of short sequences, two peripherals, from mid-cycle
+    let alpha3 = ["T", "Xok", "oXok", "OXok", "oT", "OT", "Dok", "oDok", "S", "oS"];
+    let depth3 = if thorough { 4 } else { 3 };
+    let total3 = alpha3.len().pow(depth3 as u32);
+    for code in 0..total3 {
+        if !thorough && code % 7 != 0 {
+            continue;
+        }
+        let mut seq: Vec<&str> = vec![];
+        let mut c = code;
+        for _ in 0..depth3 {
+            seq.push(alpha3[c % alpha3.len()]);
+            c /= alpha3.len();
+        }
+        let prefix: &[&str] = if code % 3 == 0 { &["Dok", "Dok", "S", "S", "S", "S", "Dok", "Dok", "Xok"] } else if code % 3 == 1 { &["Dok", "Dok", "S", "S", "S", "S", "Dok", "Dok", "Xok", "Xok", "Xok"] } else { &["Dok", "Dok", "S"] };
+        exhaustive_case(ops, &mut ex, prefix, &seq, true, 1, 1);
     }
     // 4. outside the contract (correspondence only)
     let n = if thorough { 4000 } else { 150 };
